@@ -44,13 +44,16 @@ def conversion_operands(P, chk):
             if any("strategy" in r.fields for r in roots):
                 arm = labs
         if arm == ("Historical",):
-            ok = ".date" in sd and "now" not in sd and "target" in st and "amount" in sa
+            ok = q.all_roots(b, date, lambda r: r.kind == "call" and r.fields[-1:] == ("date",) and str(r.name).endswith("::next")) \
+                and "now" not in sd and "target" in st and "amount" in sa
             chk.require(ok, R_OPS, "Ledger::balance|historical converts posting.amount at txn.date into target", b.loc(bb),
                         "historical conversion uses amount=%s date=%s target=%s" % (sa, sd, st),
                         "convert_amount(posting.amount, target, txn.date)")
             kinds["Historical"] = True
         elif arm == ("UpToDate",):
-            ok = "now" in sd and ".date" not in sd and "target" in st
+            # every value that can reach the date operand is the strategy's own `now` (nothing derived from it)
+            ok = q.all_roots(b, date, lambda r: r.kind == "param" and r.fields[-1:] == ("now",) and not [v for v in r.via if v not in ("φ", "deref", "clone")]) \
+                and ".date" not in sd and "target" in st
             chk.require(ok, R_OPS, "Ledger::balance|up-to-date converts at the strategy's now into target", b.loc(bb),
                         "up-to-date conversion uses amount=%s date=%s target=%s" % (sa, sd, st),
                         "convert_amount(account amount, target, now)")
